@@ -26,12 +26,15 @@ func init() {
 			"(E1) common enumeration: each of the ten tables of the property and each catalog-reading SHOW executor calls, inside its loop over all databases, the catalog interfaces that own the listed objects (GetTableNames/DBTableIter, ViewsInDatabase = ViewDatabase.AllViews + session view registry, GetIndexes, GetDeclaredForeignKeys, GetChecks, GetTriggers, GetStoredProcedures), the databases coming from AllDatabasesWithNames; and, for table-, view-, index-, foreign-key- and check-level listings, the loop over the enumerated objects (or the DBTableIter callback) builds output rows; (E2) every reader passes the same privilege-unwrapping argument to AllDatabasesWithNames, so TABLES, COLUMNS, STATISTICS… apply one visibility filter; " +
 			"(X1) error discipline: the error result of every catalog enumeration call in a reader or SHOW executor is bound and reaches a return statement that propagates it (named exceptions: the dropped referenced table in REFERENTIAL_CONSTRAINTS, the no-auto-increment sentinel); " +
 			"(S1) no carry-over between listed objects: a variable that is declared outside an enumeration loop/callback, assigned inside it and placed in an output row is assigned on every path of the iteration before the row is built, so one object's row never shows the previous object's value. " +
-			"(N1) run extraction: where a reader cuts the elements of one object out of a list of all objects' elements with a two-phase scan (`s < 0 && P` starts the run, `s >= 0 && Q` ends it), Q is the negation of P on every assignment of their atoms (a != b normalised to not a == b), so the run holds exactly that object's elements (COLUMNS: SchemaForTable).",
+			"(N1) run extraction: where a reader cuts the elements of one object out of a list of all objects' elements with a two-phase scan (`s < 0 && P` starts the run, `s >= 0 && Q` ends it), Q is the negation of P on every assignment of their atoms (a != b normalised to not a == b), so the run holds exactly that object's elements (COLUMNS: SchemaForTable). " +
+			"(S2) accumulators are not crossed: where a reader sorts the enumerated objects into several slices grown by self-append (TRIGGERS: before/after x insert/update/delete), no assignment `a = append(b, ...)` takes one accumulator from another.",
 		NotCovered: "That the listed contents equal a catalog model after arbitrary DDL histories (values of names, definitions, ordinal positions, privileges filtering of individual rows); elements of static type interface{} and literal nil (skipped by L2, counted in a note); whether a string element holds the right attribute among several string columns; rows built by forms outside the read subset (reported as notes); who fills ShowIndexes.IndexesToShow / ShowTriggers.Triggers / ShowCreateTable.Indexes and ROUTINES' procedure map (planbuilder/analyzer, not loaded in the quick tier); type-switch subjects are assumed to be the same child node on both sides; view definitions that fail to re-parse are skipped by the engine on purpose (not an enumeration error); concurrency of the shared table objects.",
 		Run: func(c *Ctx) {
 			runC43(c, c43RepoCfg())
 			c.Rule("C43-N1", "run extraction (two-phase scan over a position variable: `s < 0 && P` starts the run, `s >= 0 && Q` ends it): Q is the negation of P on every assignment of their atoms, so the run holds exactly the elements of the object it was started for", 1)
 			ruleRunComplement(c, "C43-N1", []string{"sql/information_schema", "sql/rowexec"})
+			c.Rule("C43-S2", "accumulators are not crossed: in a reader that grows several slices by self-append, no `a = append(b, ...)` assigns one accumulator from another", 3)
+			ruleAccumulatorsNotCrossed(c, "C43-S2", []string{"sql/information_schema", "sql/rowexec"})
 		},
 		Fixture: func(c *Ctx, fx *Prog) {
 			expectFixture(c, fx, "c43: short row, swapped kinds, flag-dependent arity, unregistered schema, key/name mismatch, nil reader, shared reader, package cache, new field write, memo served from the registry, missing source, deviating visibility argument, swallowed error, carried-over variable must be reported",
@@ -39,6 +42,9 @@ func init() {
 			expectFixture(c, fx, "c43 run: the end test of a run forgets one of the conjuncts of the start test",
 				[]string{"C43-N1:RunBad/run over start"},
 				func(fc *Ctx) { ruleRunComplement(fc, "C43-N1", []string{"testdata/c43/is"}) })
+			expectFixture(c, fx, "c43 append: one class accumulator assigned from another",
+				[]string{"C43-S2:SortBad/afterU = append(beforeU, ...)"},
+				func(fc *Ctx) { ruleAccumulatorsNotCrossed(fc, "C43-S2", []string{"testdata/c43/is"}) })
 		},
 		FixturePkgs: []string{"./testdata/c43/is", "./testdata/c43/exec"},
 	})
